@@ -2,6 +2,7 @@ import Casket.Model.Hello
 import Casket.Model.Mitm
 import Casket.Model.Link
 import Casket.Model.FCGI
+import Casket.Model.FCGIStatus
 import Casket.Spec.PeerBytes
 import Casket.Spec.Hello
 import Driver.Proto
@@ -18,6 +19,9 @@ Streams of C19 (hex = hex-encoded bytes).
   c19.link    hex                      out = resources
   c19.record  hex                      out = out=<hex>;err=<hex>;fin=<eof|ueof|badver>
   c19.pairs   klen vlen                out = ok:<wire length> | PANIC:<class>
+  c19.status  hex                      out = req=<err | code>;serve=<ret>,<code written | ->  | PANIC:<class>
+              hex = the value of the responder's Status header as textproto delivers it; through the real
+              FCGIClient.Request and the real fastcgi Handler.ServeHTTP (loopback responder)
   c19.explore …                        out = ok | PANIC  (no model: exploration of handler entry points)
   c19.replacer  (fields of c20.replace)  out = hex of the expansion | PANIC | HANG  (model: slice C20's Replacer model)
   c19.conns   step …                   out = <recorded, connection 0> " | " <recorded, connection 1> …   | PANIC:<class>
@@ -267,7 +271,33 @@ def matchesModel : List String → String
     | _, _ => "bad-case"
   | _ => "bad-case"
 
+/-- c19.status: the responder's Status header through `FCGIClient.Request` and `Handler.ServeHTTP` -/
+def statusModel : List String → String
+  | [h] => match Driver.unhex h with
+    | some v =>
+      match Casket.FCGIStatus.parseStatus v, Casket.FCGIStatus.serve v with
+      | .error f, _ => panicStr f
+      | _, .error f => panicStr f
+      | .ok r, .ok s =>
+        let req := match r with
+          | none => "err"
+          | some r => s!"{r.code}"
+        let srv := match s with
+          | .badGateway => "502,-"
+          | .wrote c => s!"0,{c}"
+        s!"req={req};serve={srv}"
+    | none => "bad-case"
+  | _ => "bad-case"
+
+/-- only what the property states: request handling did not panic on the backend's bytes -/
+def statusJudge (_ : List String) (out : String) : String :=
+  if out.startsWith "PANIC:index" || out.startsWith "PANIC:slice" then totalVerdict (observed out)
+  else if out.startsWith "PANIC" then
+    "bad:panic:request handling panicked on the Status header a FastCGI responder sent (" ++ (out.drop 12).toString ++ ")"
+  else "ok"
+
 def streams : List Driver.Stream := [
+  { name := "c19.status", model := statusModel, judge := statusJudge },
   { name := "c19.hello", model := helloModel, judge := helloJudge },
   { name := "c19.looks", model := looksModel, judge := looksJudge },
   { name := "c19.seg", model := segModel, judge := segJudge },
